@@ -584,7 +584,115 @@ def oracle_sq_masked(ctx):
                 samples=samples, failures=failures)
 
 
+# ------------------------------------------------------------------ dict inputs must stay untouched (objects and content)
+
+DI_FORMATS = ["coo_matrix", "csc_matrix", "csr_matrix", "dia_matrix", "coo_array", "csc_array", "csr_array", "dia_array",
+              "dense", "sympy"]
+
+
+def di_problem(rng, fmt):
+    npar = rng.choice([1, 2, 3])
+    n0, n1 = rng.choice([(1, 1), (1, 2), (2, 2)])
+    E = sorted(rng.sample(range(0, 5), n0)) + sorted(rng.sample(range(7, 14), n1))
+    N = n0 + n1
+    terms = {}
+    for k in range(npar):
+        a = [[rng.randint(-2, 2) for _ in range(N)] for _ in range(N)]
+        terms[",".join("1" if q == k else "0" for q in range(npar))] = [[a[i][j] + a[j][i] for j in range(N)] for i in range(N)]
+    return dict(npar=npar, sizes=[n0, n1], E=E, terms=terms, fmt=fmt, pert_same_format=rng.random() < 0.5)
+
+
+def di_build(prob):
+    import numpy as np
+    import scipy.sparse as sp
+    import sympy
+
+    def conv(m, fmt):
+        m = np.array(m, dtype=float)
+        if fmt == "dense":
+            return m
+        if fmt == "sympy":
+            return sympy.Matrix(m).applyfunc(sympy.nsimplify)
+        return getattr(sp, fmt)(m)
+
+    npar = prob["npar"]
+    d = {(0,) * npar: conv(np.diag(prob["E"]), prob["fmt"])}
+    for k, v in prob["terms"].items():
+        pf = prob["fmt"] if (prob["pert_same_format"] or prob["fmt"] == "sympy") else "dense"
+        d[tuple(int(x) for x in k.split(","))] = conv(v, pf)
+    return d
+
+
+def di_snapshot(d):
+    import numpy as np
+
+    def content(v):
+        if hasattr(v, "toarray"):
+            return (type(v).__name__, getattr(v, "format", None), v.shape, np.asarray(v.toarray()).tobytes())
+        return (type(v).__name__, None, tuple(v.shape), _canon(v))
+
+    return [(k, id(v), content(v)) for k, v in d.items()]
+
+
+def di_check(prob, reqs):
+    import warnings
+    from pymablock import block_diagonalize
+
+    d = di_build(prob)
+    keep = dict(d)  # keeps the value objects alive, so that ids identify them
+    before = di_snapshot(d)
+
+    def changed():
+        after = di_snapshot(d)
+        if [k for k, _, _ in after] != [k for k, _, _ in before]:
+            return "the keys of the caller's dictionary changed"
+        for (k, i0, c0), (_, i1, c1) in zip(before, after):
+            if i0 != i1:
+                return "the entry %s of the caller's dictionary was replaced by another object (%s -> %s)" % (k, c0[:2], c1[:2])
+            if c0 != c1:
+                return "the entry %s of the caller's dictionary was modified" % (k,)
+        return None
+
+    with warnings.catch_warnings():
+        warnings.simplefilter("ignore")
+        n0, n1 = prob["sizes"]
+        out = block_diagonalize(d, subspace_indices=[0] * n0 + [1] * n1)
+        what = changed()
+        if what:
+            return "defining the block diagonalization: " + what
+        for (s, ix) in reqs:
+            out[s][tuple(ix)]
+            what = changed()
+            if what:
+                return "after requesting %s%s: %s" % (OUTS[s], list(ix), what)
+    del keep
+    return None
+
+
+def oracle_dict_inputs(ctx):
+    rng = ctx.rng
+    evaluations = 0
+    failures, samples = [], []
+    for rep in range(ctx.n(1, 6)):
+        for fmt in DI_FORMATS:
+            prob = di_problem(rng, fmt)
+            reqs = [(rng.randrange(3), [rng.randrange(2), rng.randrange(2)] + [rng.choice([0, 1, 2])] + [0] * (prob["npar"] - 1)) for _ in range(3)]
+            evaluations += 1
+            try:
+                what = di_check(prob, reqs)
+            except (ValueError, NotImplementedError, TypeError) as e:
+                samples.append(dict(problem=prob["fmt"], rejected=str(e)[:100]))
+                continue
+            if what:
+                failures.append(dict(what=what, input=dict(level="dict_inputs", problem=prob, requests=[[r[0], r[1]] for r in reqs])))
+    return dict(evaluations=evaluations, nontrivial=evaluations,
+                rule="Hamiltonian given as a dict with order-tuple keys (1-3 parameters), zeroth order in every scipy sparse format (matrix and array), dense and sympy: same keys, same value objects, same type/format/content after definition and after every request",
+                samples=samples[:3], failures=failures)
+
+
 def replay_input(inp):
+    if inp.get("level") == "dict_inputs":
+        return di_check(inp["problem"], [(r[0], r[1]) for r in inp["requests"]])
     if "multi_request" in inp:
         return KS.replay_multi(inp)
     if inp.get("level") == "sq_masked":
